@@ -1,5 +1,7 @@
 import json,sys
+import os
 pid=sys.argv[1]; wt=sys.argv[2]; n=sys.argv[3] if len(sys.argv)>3 else "2"
+out=os.path.dirname(wt.rstrip("/"))
 for l in open('/verif/properties.jsonl'):
     p=json.loads(l)
     if p['id']==pid: break
@@ -14,13 +16,13 @@ Relevant files: {', '.join(p['anchors']['files'])}
 Mechanisms in the code meant to make it hold:
 {mech}
 
-TASK: produce {n} DIFFERENT, independent source changes (each a separate small patch against the clean worktree) that each BREAK this property while the library still imports and the EXISTING test suite still passes. Each change must be a realistic slip a developer could make (swapped/dropped argument, off-by-one, wrong variable, reordered statements, dropped guard, wrong mode/constant, stale state, ...), NOT something ordinary use would expose at once: it should need something specific to manifest (an unusual input, a particular configuration/flag combination, a multi-step sequence, a crash/fault at a particular point, or two cooperating sites that each look fine alone). Prefer variety: the changes should break different aspects/clauses of the property and touch different functions.
+TASK: produce {n} DIFFERENT, independent source changes (each a separate small patch against the clean worktree) that each BREAK this property while the library still imports and the EXISTING test suite still passes. Each change must be a realistic slip a developer could make (swapped/dropped argument, off-by-one, wrong variable, reordered statements, dropped guard, wrong mode/constant, stale state, ...), NOT something ordinary use would expose at once: it should need something specific to manifest (an unusual input, a particular configuration/flag combination, a multi-step sequence, a crash/fault at a particular point, or two cooperating sites that each look fine alone). Prefer variety: the changes should break different aspects/clauses of the property and touch different functions; look beyond the most obvious line - secondary code paths, option combinations, helper functions, the Module wrappers and command-line drivers named in the statement are all fair game.
 
 For each change i (1..{n}):
  1. Start from the clean tree (`git -C {wt} checkout -- . && git -C {wt} clean -fdq`), make the edit(s) under src/ only (never edit tests/).
- 2. Write a demonstration script {wt}/../{pid}-demo-i.py (i.e. under /tmp/wt/, OUTSIDE the worktree) — a small standalone Python program (or pytest file) that exercises the public API and exits non-zero / fails WITH the change and exits 0 / passes WITHOUT it. Run it as `cd /tmp && OMP_NUM_THREADS=1 PYTHONPATH={wt}/src /venv/bin/python <demo>` (PYTHONPATH makes the worktree's sources override the installed package; verify with `python -c "import pydrobert.torch,sys;print(pydrobert.torch.__file__)"`). Confirm both directions yourself (with the patch applied: fails; after `git diff > patch; git checkout -- .`: passes; NEVER use git stash, it is shared between worktrees).
+ 2. Write a demonstration script {out}/{pid}-demo-i.py (OUTSIDE the worktree) — a small standalone Python program (or pytest file) that exercises the public API and exits non-zero / fails WITH the change and exits 0 / passes WITHOUT it. Run it as `cd /tmp && OMP_NUM_THREADS=1 PYTHONPATH={wt}/src /venv/bin/python <demo>` (PYTHONPATH makes the worktree's sources override the installed package; verify with `python -c "import pydrobert.torch,sys;print(pydrobert.torch.__file__)"`). Confirm both directions yourself (with the patch applied: fails; after `git diff > patch; git checkout -- .`: passes; NEVER use git stash, it is shared between worktrees).
  3. Confirm the existing tests still pass with the change: run the relevant test files, e.g. `cd {wt} && OMP_NUM_THREADS=1 MKL_NUM_THREADS=1 PYTHONPATH={wt}/src /venv/bin/python -m pytest -q -p no:cacheprovider -n 3 --timeout=900 tests/<relevant files>`; do NOT run the whole suite (the machine is shared; the coordinator runs it). ALWAYS prefix python/pytest commands with `OMP_NUM_THREADS=1 MKL_NUM_THREADS=1` and use at most `-n 3`. On the clean tree exactly one test fails already and is unrelated: tests/test_command_line.py::test_torch_token_data_dir_to_textgrids may or may not fail depending on the checkout; ignore it. Avoid --num-workers > 0 style multiprocessing from stdin scripts (hangs); write scripts to files and give every command a timeout.
- 4. Save the patch: `git -C {wt} diff > /tmp/wt/{pid}-patch-i.diff`, then restore the clean tree.
+ 4. Save the patch: `git -C {wt} diff > {out}/{pid}-patch-i.diff`, then restore the clean tree.
 
 Constraints: no network; do not install anything; do not modify tests; keep each patch small (a few lines). The patched library must still import and compile.
 
